@@ -40,6 +40,7 @@ import (
 type RootObjectIterator struct {
 	foundReferences map[duplicates.TypedPointer]bool
 	namedReferences map[duplicates.TypedPointer]uint32
+	markedLengths   map[duplicates.TypedPointer]int
 	nextMarkerName  uint32
 	context         Context
 	config          *configuration.Configuration
@@ -86,6 +87,7 @@ func (_this *RootObjectIterator) Iterate(object interface{}) {
 	if _this.config.Iterator.RecursionSupport {
 		_this.foundReferences = duplicates.FindDuplicatePointers(object)
 		_this.namedReferences = make(map[duplicates.TypedPointer]uint32)
+		_this.markedLengths = make(map[duplicates.TypedPointer]int)
 	}
 
 	// Generate all record types at the top of the document
@@ -122,6 +124,19 @@ func (_this *RootObjectIterator) addLocalReference(v reflect.Value) (didGenerate
 	ptr := duplicates.TypedPointerOfRV(v)
 	if !_this.foundReferences[ptr] {
 		return false
+	}
+
+	if v.Kind() == reflect.Slice {
+		// Slices that start at the same address are the same object only if they
+		// are also equally long (s[:2] and s[:3] are not): a reference to the one
+		// that was marked would stand for the wrong elements.
+		if markedLength, isMarked := _this.markedLengths[ptr]; isMarked {
+			if markedLength != v.Len() {
+				return false
+			}
+		} else {
+			_this.markedLengths[ptr] = v.Len()
+		}
 	}
 
 	name, exists := _this.getNamedLocalReference(ptr)
